@@ -180,10 +180,17 @@ func (ex *Exec) zero(t types.Type) Value {
 }
 
 func (ex *Exec) load(c *Cell) Value {
+	if ex.guards != nil {
+		ex.guardCellAccess(c, false, nil)
+	}
+	return ex.loadRec(c)
+}
+
+func (ex *Exec) loadRec(c *Cell) Value {
 	if c.subs != nil || isStructLike(c.typ) {
 		vs := make([]Value, len(c.subs))
 		for i, s := range c.subs {
-			vs[i] = ex.load(s)
+			vs[i] = ex.loadRec(s)
 		}
 		if _, ok := c.typ.Underlying().(*types.Struct); ok {
 			return StructV{vs}
@@ -194,6 +201,13 @@ func (ex *Exec) load(c *Cell) Value {
 }
 
 func (ex *Exec) store(c *Cell, v Value) {
+	if ex.guards != nil {
+		ex.guardCellAccess(c, true, v)
+	}
+	ex.storeRec(c, v)
+}
+
+func (ex *Exec) storeRec(c *Cell, v Value) {
 	if c.subs != nil || isStructLike(c.typ) {
 		switch x := v.(type) {
 		case StructV:
@@ -201,11 +215,11 @@ func (ex *Exec) store(c *Cell, v Value) {
 				panic(fmt.Sprintf("store: struct arity mismatch %d vs %d for %s", len(x.fields), len(c.subs), c.typ))
 			}
 			for i, s := range c.subs {
-				ex.store(s, x.fields[i])
+				ex.storeRec(s, x.fields[i])
 			}
 		case ArrayV:
 			for i, s := range c.subs {
-				ex.store(s, x.elems[i])
+				ex.storeRec(s, x.elems[i])
 			}
 		default:
 			panic(fmt.Sprintf("store: aggregate cell %s got %T", c.typ, v))
